@@ -183,7 +183,27 @@ def compare(ws, sch, rec, item, emit):
         return None
     return {"clause": why, "observed": got,
             "class": {"clause": why, "internal": got.get("kind") if why == "internal-error" else None,
-                      "shape": item["meta"].get("shape")}}
+                      "shape": item["meta"].get("shape"),
+                      "imported_type_addressed": addresses_imported_type(item),
+                      "code": "rejects" if got["r"] == "err" else "accepts"}}
+
+
+IMPORTED_TYPES = ("pa1", "pa2", "pb1", "pc1", "pd1")
+
+
+def addresses_imported_type(item):
+    """Does some override path lead into a section whose type the text brought in with %import?"""
+    lines = [l for ls in item["files"].values() for l in ls]       # the text may be spread over included files
+    heads = [l for l in lines if getattr(l, "info", None) and l.info.get("role") in ("open", "empty")
+             and l.info.get("type") in IMPORTED_TYPES]
+    if not heads:
+        return False
+    names = {(h.info.get("name") or "").lower() for h in heads} | {h.info["type"] for h in heads}
+    for o in item["opts"]:
+        comps = o.split("=", 1)[0].split("/")[:-1]
+        if any(c.lower() in names for c in comps):
+            return True
+    return False
 
 
 def run(chk):
@@ -202,19 +222,49 @@ def run(chk):
                 "values, values with '$', missing sections, malformed specifiers), a third of them with the text cut into "
                 "included files; each paired with the hand-edited text; "
                 "non-trivial = the override list is well-formed and addresses an existing section" % maxov)
+    # + a schema whose abstract slot is filled by %import-ed types: overrides addressed to sections of a type
+    #   that the text itself imported
+    from . import c12
+    from .. import packages, tlc
+    import shutil
+    docs.append(c12.docs()[0])
+    imp_sid = len(docs) - 1
+    pkgroot = tlc.mkscratch("zcv-pkg-")
+    packages.build(pkgroot)
+    try:
+        _run(chk, rng, docs, imp_sid, per, maxov)
+    finally:
+        shutil.rmtree(pkgroot, ignore_errors=True)
+
+
+def _run(chk, rng, docs, imp_sid, per, maxov):
+    from . import c12
+    from .. import packages
     pre = scenario.Scenarios(docs)
+    pre.packages = packages.abstract_packages()
+    pre.proj_recs = c12.proj_recs(pre)
     bases = []
+    k1 = {"kind": "key", "name": "k1", "attr": "k1", "dt": "string", "stype": "", "req": False, "dflt": [], "handler": ""}
     for sid in range(len(docs)):
         for b in range(per):
             t = textgen.Gen(rng, pre.recs[sid]).text()
+            if sid == imp_sid:
+                t = [Line("%import zcvpkg_a", role="import", cont="")] + list(t)
+                for j in range(rng.randint(1, 2)):
+                    nm = "p%d" % j
+                    t += [Line("<pa1 %s>" % nm, role="open", cont="", type="pa1", name=nm, child=None),
+                          Line("  k1 v1", role="key", cont="pa1", child=k1),
+                          Line("</pa1>", role="close", cont="", type="pa1", name=nm, child=None)]
             bases.append((sid, t))
             pre.add(sid, {"d/main.conf": t})
     pouts = pre.run_spec(chk)
     sc = scenario.Scenarios(docs)
+    sc.packages = packages.abstract_packages()
+    sc.proj_recs = c12.proj_recs(sc)
     for (sid, t), o in zip(bases, pouts):
         if o["o"]["r"] != "ok":
             continue
-        rec = sc.recs[sid]
+        rec = sc.proj_recs[sid]
         for v in range(3):
             ovs = gen_overrides(rng, rec, t, rng.randint(1, maxov))
             parsed = [parse(s) for s in ovs]
